@@ -310,6 +310,8 @@ class Lexer:
             if c == ".":
                 if self.peek() == ".":  # probably a range expression delimiter
                     self.backup()
+                    if len(self.path_stack) > 1:
+                        self.error("unbalanced brackets")
                     return
 
                 self.ignore()
@@ -400,6 +402,8 @@ class Lexer:
                     self.error("expected a string, index or property name")
             else:
                 self.backup()
+                if len(self.path_stack) > 1:
+                    self.error("unbalanced brackets")
                 return
 
     def accept_string(self, *, quote: str) -> None:
